@@ -1092,7 +1092,12 @@ public:
                              m_bool_to_lincsts & other.m_bool_to_lincsts,
                              m_bool_to_refcsts & other.m_bool_to_refcsts,
 			     m_bool_to_bools & other.m_bool_to_bools,
-                             m_unchanged_vars & other.m_unchanged_vars);
+                             // A recorded constraint can be used only if
+                             // its variables are unchanged in the operand
+                             // that recorded it: keep the variables
+                             // unchanged in both (join of the invariance
+                             // domain).
+                             m_unchanged_vars | other.m_unchanged_vars);
   }
 
   void operator&=(const bool_num_domain_t &other) override {
@@ -1100,7 +1105,8 @@ public:
     m_bool_to_lincsts = m_bool_to_lincsts & other.m_bool_to_lincsts;
     m_bool_to_refcsts = m_bool_to_refcsts & other.m_bool_to_refcsts;
     m_bool_to_bools = m_bool_to_bools & other.m_bool_to_bools;
-    m_unchanged_vars = m_unchanged_vars & other.m_unchanged_vars;
+    // see operator&
+    m_unchanged_vars = m_unchanged_vars | other.m_unchanged_vars;
   }
   
   bool_num_domain_t operator||(const bool_num_domain_t &other) const override {
@@ -1126,7 +1132,8 @@ public:
                              m_bool_to_lincsts && other.m_bool_to_lincsts,
                              m_bool_to_refcsts && other.m_bool_to_refcsts,
 			     m_bool_to_bools && other.m_bool_to_bools,
-                             m_unchanged_vars && other.m_unchanged_vars);
+                             // see operator&
+                             m_unchanged_vars | other.m_unchanged_vars);
   }
 
   // numerical_domains_api
